@@ -206,7 +206,8 @@ def check_tuples_sequential(out, facts):
         ok = [d[1] for d in decs] == want and all(d[3] == 'decode' for d in decs) and not sym.has_opaque(t)
         # each decode is followed by error propagation, value = tuple of decoded values in order
         its = items(t)
-        ok = ok and [e[0] for e in its] == ['dec', '?'] * len(want)
+        # (the last component's Result may be mapped into the tuple instead of being unwrapped with `?` and re-wrapped)
+        ok = ok and [e[0] for e in its] in (['dec', '?'] * len(want), ['dec', '?'] * (len(want) - 1) + ['dec'])
         rv = sym.vstr(v)
         exp = 'Ok((%s))' % ', '.join('decoded#%s:%s' % (d[2], d[1]) for d in decs)
         ok = ok and rv == exp
